@@ -7,7 +7,8 @@ RULE = ("all rooted DAG shapes n<=4 (wide shapes up to 5 in thorough) x every pa
         "between parallel waves) x JOBS 1..3 (4), explored under the virtual kernel over all completion interleavings (slots are "
         "recycled in completion order) plus deviations for n<=3; invariant evaluated at every spawn/sync-start against the set of "
         "live processes: |live|<=JOBS, non-parallelizable exclusive, distinct COND_SLOT in [0,JOBS), COND_SLOT unset iff not "
-        "parallelizable or JOBS=1; distinct = distinct (case, terminal event order)")
+        "parallelizable or JOBS=1; distinct = distinct (case, terminal event order)"
+        ' Launch failures and non-zero exits of one task among parallel siblings are included (slot bookkeeping on the failure path).')
 ASSUMPTIONS = [
     "a process is live from its spawn until its exit at the (virtual) kernel, not until Conductor notices",
     "group/combine tasks are 'not marked parallelizable': they must not start while any process is live",
@@ -51,6 +52,18 @@ def items(tier):
                         bound = 2 if n <= 2 else 1
                     out.append({"case": {"g": g, "kinds": kinds, "pars": pars, "jobs": jobs, "fails": {}, "force_j": True},
                                 "bound": bound})
+    # cond started from inside a parallel task of another project: COND_SLOT is already in its environment
+    for g in rungrid.graphs_upto((1, 2, 3), orders=False):
+        n = len(g)
+        for kinds in (["cmd"] * n, ["exp"] * n):
+            for jobs in (1, 2):
+                for pars in rungrid.par_assignments(kinds, jobs, "all"):
+                    out.append({"case": {"g": g, "kinds": kinds, "pars": pars, "jobs": jobs, "fails": {}, "force_j": True, "outer_env": True}, "bound": 0})
+    # every 5-task shape x every parallelizable assignment (sequential tasks becoming ready while parallel ones run)
+    for g in rungrid.graphs_upto((5,), orders=False):
+        for pars in rungrid.par_assignments(["cmd"] * 5, 2, "all"):
+            if 0 < sum(pars) < 5:
+                out.append({"case": {"g": g, "kinds": ["cmd"] * 5, "pars": pars, "jobs": 2, "fails": {}}, "bound": 0})
     # a task that cannot be launched among parallel siblings (slot bookkeeping on the failure path)
     for g in ([[1, 2, 3, 4], [], [], [], []], [[1, 2, 3], [], [], []], [[1, 2], [3, 4], [3, 4], [], []]):
         n = len(g)
